@@ -96,6 +96,10 @@ func writeScript(path, body string) {
 	_ = os.Chmod(path, 0755)
 }
 
+// c09FanCfgHook lets another check (C13's daemon-path unit) adjust the fan entry before the daemon's
+// own InitializeObjects turns the configuration into objects.
+var c09FanCfgHook func(*configuration.FanConfig)
+
 func buildC09(sc c09Scenario) (*c09Rig, error) {
 	dir, err := os.MkdirTemp(sim.WorkDir(), "c09-")
 	if err != nil {
@@ -213,6 +217,9 @@ func buildC09(sc c09Scenario) (*c09Rig, error) {
 	if r.rpm != nil {
 		pwmDev := r.pwm
 		r.rpm.ReadFn = func() int { return rpmLaw(pwmDev.Get()) }
+	}
+	if c09FanCfgHook != nil {
+		c09FanCfgHook(&fanCfg)
 	}
 	cfg.Fans = []configuration.FanConfig{fanCfg}
 	freshPrometheus()
